@@ -290,6 +290,10 @@ fn run_schedule(prog: &Value, schedule: &[usize], path: &str, pinout: Option<&st
         feoxdb::verif::sched::wait_parked(*id, Duration::from_secs(5));
     }
     let mut alive = vec![true; nthreads];
+    let script: Vec<(usize, String)> = prog["script"].as_array().map(|a| a.iter().filter_map(|d| {
+        Some((d[0].as_u64()? as usize, d[1].as_str()?.to_string()))
+    }).collect()).unwrap_or_default();
+    let mut script_pos = 0usize;
     let mut choices = Vec::new();
     let mut parked_at: Vec<&'static str> = Vec::new();   // where the previously run thread stands at each decision
     let mut pos = 0;
@@ -315,7 +319,15 @@ fn run_schedule(prog: &Value, schedule: &[usize], path: &str, pinout: Option<&st
         if (spins[default] >= 3 || streak >= 40) && runnable.len() > 1 {
             default = *runnable.iter().find(|r| **r != default).unwrap();
         }
-        let pick = if pos < schedule.len() && runnable.contains(&schedule[pos]) { schedule[pos] } else { default };
+        // a scripted schedule ("run thread t until it stands at point p"): directives are consumed in
+        // order; a thread that is blocked, finished or has reached its point yields to the next one
+        while script_pos < script.len() {
+            let (st, _) = &script[script_pos];
+            if *st < nthreads && alive[*st] && !blocked[*st] { break; }
+            script_pos += 1;
+        }
+        let pick = if script_pos < script.len() { script[script_pos].0 }
+                   else if pos < schedule.len() && runnable.contains(&schedule[pos]) { schedule[pos] } else { default };
         let mut opts = vec![pick];
         opts.extend(runnable.iter().copied().filter(|r| *r != pick));
         choices.push(opts);
@@ -330,8 +342,10 @@ fn run_schedule(prog: &Value, schedule: &[usize], path: &str, pinout: Option<&st
             Some(name) => {
                 for b in blocked.iter_mut() { *b = false; }
                 if last_point[pick] == name { spins[pick] += 1; } else { spins[pick] = 0; last_point[pick] = name; }
+                if script_pos < script.len() && script[script_pos].0 == pick && script[script_pos].1 == name { script_pos += 1; }
             }
         }
+        if script_pos < script.len() && script[script_pos].0 == pick && (!alive[pick] || blocked[pick]) { script_pos += 1; }
         if pos > 5000 { stalled = true; break; }
         if pos < 400 { obs::api("mem", &[], sh.store.memory_usage() as u64, 0, 0); }
     }
@@ -398,6 +412,12 @@ fn dfs_main(o: &Opts) -> i32 {
             // optional focus: preempt a thread only where it stands at one of the named points
             let focus: Option<Vec<String>> = prog["points"].as_array().map(|a| a.iter().filter_map(|x| x.as_str().map(String::from)).collect());
             if stalled { stalls += 1; }
+            if prog["script"].is_array() {
+                // a directed schedule: no enumeration of alternatives
+                for e in &ev { writeln!(out, "{}", e).unwrap(); events += 1; }
+                n += 1;
+                continue;
+            }
             // choices[d][0] is the pick actually taken at decision d, the rest are alternatives
             for d in prefix.len()..choices.len() {
                 for &alt in choices[d].iter().skip(1) {
